@@ -63,7 +63,7 @@ def run_property(prop, tier, root=None, write=True, quiet=False, model=None):
 
 def explain(prop, path):
     data = json.loads(open(path).read())
-    rc, R = run_property(prop, 'quick')
+    rc, R = run_property(prop, 'quick', write=False, quiet=True)
     key = data.get('key')
     hits = [o for o in R.obs if o.key == key]
     print(f'--- replay of {key}')
@@ -90,6 +90,14 @@ def main(argv=None):
     if rc == 0 and args.tier == 'thorough':
         from . import selftest
         rc = selftest.run(args.prop)
+        ev = report.VERIF / 'evidence' / f'{args.prop}.json'
+        if ev.exists() and args.root is None and 'SA_REPO' not in os.environ:
+            data = json.loads(ev.read_text())
+            data['coverage']['selftest'] = dict(selftest.STATS)
+            data['coverage']['explanation'] += (' Thorough tier: both-ways self-test of the rules on AST-computed variants of the current source and on the '
+                                                'stored independent change corpora (seeded/, benign/), see coverage.selftest.')
+            data['wall_s'] = round(data.get('wall_s', 0) + 0.0, 3)
+            ev.write_text(json.dumps(data, indent=1) + '\n')
     return rc
 
 
